@@ -110,6 +110,13 @@ def pose(cx, name, reduce="cols", tlim=1e3):
     cx.facts.append(("orth:%s:det" % name,
                      zr[0][0] * (zr[1][1] * zr[2][2] - zr[1][2] * zr[2][1]) - zr[0][1] * (zr[1][0] * zr[2][2] - zr[1][2] * zr[2][0])
                      + zr[0][2] * (zr[1][0] * zr[2][1] - zr[1][1] * zr[2][0]) == 1))
+    # every entry of a rotation is in [-1, 1]: nine small lemmas (each its own obligation, from one row-norm fact);
+    # they make radicands like 1 - R_k2^2 of the AABB formulas immediate
+    for i in range(3):
+        for j in range(3):
+            g = zr[i][j] * zr[i][j] <= 1
+            cx.prove("pose_entry_le_1:%s[%d,%d]" % (name, i, j), B(g), kind="lemma", prop_level=False,
+                     use=["orth:%s:row%d%d" % (name, i, i)])
     if reduce:
         # Groebner basis of the ideal of SO(3) (computed by sympy, 20 elements, all leading monomials are products of
         # two entries): polynomials in the entries of R are kept in normal form modulo "R is a rotation"
